@@ -57,6 +57,7 @@ func RunParse(t *testing.T, c *Case, s Sched, keepLog bool) *Obs {
 	var pr posReader
 	var sr *gosim.SimReader
 	var br *gosim.SimByteReader
+	var callerBuf *bufio.Reader
 	switch c.Reader.Kind {
 	case "string":
 		src = c.Src
@@ -82,6 +83,7 @@ func RunParse(t *testing.T, c *Case, s Sched, keepLog bool) *Obs {
 		under := strings.NewReader(c.Src)
 		r := bufio.NewReaderSize(under, 16)
 		src, pr = r, lenPos{len(c.Src), func() int { return r.Buffered() + under.Len() }}
+		callerBuf = r
 	case "invalid-int":
 		src = 42 // not a supported source type: ParseCommands must fail cleanly
 	case "invalid-nil":
@@ -118,6 +120,12 @@ func RunParse(t *testing.T, c *Case, s Sched, keepLog bool) *Obs {
 				break
 			}
 		}
+		if c.Bystander && pr != nil {
+			// an unrelated call by the same caller afterwards, from a plain io.Reader: whatever the library keeps
+			// between calls, the first call's source must not be touched by it
+			sim.Yield(gosim.PCallerMark)
+			parser.ParseCommands(nil, "bystander", plainReader{strings.NewReader("zz <<E | $(y)\nb\nE\n")})
+		}
 	}
 	o.Res = gosim.RunInBubble(t, sim, body)
 
@@ -139,6 +147,15 @@ func RunParse(t *testing.T, c *Case, s Sched, keepLog bool) *Obs {
 	}
 	if pr != nil {
 		o.PosAfterDrain = pr.Pos()
+	}
+	if callerBuf != nil && len(o.PosAtReturn) > 0 {
+		// what the caller's own buffered reader still delivers is exactly the text behind the position at return
+		at := o.PosAtReturn[len(o.PosAtReturn)-1]
+		rest, _ := io.ReadAll(callerBuf)
+		if at < 0 || at > len(c.Src) || string(rest) != c.Src[at:] {
+			o.Extra["caller-reader-rest"] = fmt.Sprintf("the caller's bufio.Reader delivers %q after the calls, expected the text from offset %d on (%q)", shortStr(string(rest), 60), at, shortStr(c.Src[min(max(at, 0), len(c.Src)):], 60))
+			o.PosAfterDrain = -1
+		}
 	}
 	if (sr != nil && sr.Fired > 0) || (br != nil && br.Fired > 0) {
 		k := c.Reader.Kind + "/" + c.Reader.FaultKind
@@ -228,6 +245,11 @@ func RunParse2(t *testing.T, c *Case, s Sched, keepLog bool) *Obs {
 	o.Dump = joinParts(parts)
 	return o
 }
+
+// plainReader hides every method but Read.
+type plainReader struct{ r io.Reader }
+
+func (p plainReader) Read(b []byte) (int, error) { return p.r.Read(b) }
 
 // SoloDump is what RunParse2 must produce for one of its callers: the same call made alone.
 func SoloDump(src string) string {
